@@ -1,10 +1,17 @@
 package c05
 
 import (
+	"context"
+	"encoding/binary"
+	"encoding/json"
 	"fmt"
 	"os"
+	"os/exec"
+	"path/filepath"
 	"runtime"
 	"strings"
+	"sync"
+	"syscall"
 	"time"
 
 	"github.com/influxdata/kapacitor"
@@ -14,10 +21,11 @@ import (
 	"kapverif/rt"
 )
 
-func init() { rt.Register("c05define", RunDefine) }
+func init() {
+	rt.Register("c05define", RunDefine)
+	rt.Register("c05definefam", RunDefineFamily)
+}
 
-// dbg, when C05_DEBUG names a file, receives the lambda about to be evaluated (to identify a process-fatal input).
-var dbg *os.File
 
 // token alphabet: every sequence up to the length bound is offered as a TICKscript
 var tokens = []string{
@@ -30,6 +38,7 @@ type tally struct{ n, tasks, errs, panics, hangs, ran int }
 
 func defineOne(env *rt.Env, id, src string, run bool, t *tally, bad *[]string) {
 	t.n++
+	setCur(src)
 	type res struct {
 		task *kapacitor.Task
 		err  error
@@ -95,16 +104,9 @@ func runOne(env *rt.Env, task *kapacitor.Task, t *tally, bad *[]string) {
 	}
 }
 
-var lastLambda string
-
 func lambdaOne(src string, t *tally, bad *[]string) {
 	t.n++
-	lastLambda = src
-	if dbg != nil {
-		dbg.Seek(0, 0)
-		dbg.Truncate(0)
-		dbg.WriteString(src)
-	}
+	setCur(src)
 	defer func() {
 		if x := recover(); x != nil {
 			t.panics++
@@ -134,38 +136,14 @@ func lambdaOne(src string, t *tally, bad *[]string) {
 var lambdaTokens = []string{"\"x\"", "\"f\"", "1", "0", "1.0", "'s'", "1s", "/r/", "TRUE", "+", "-", "*", "/", "%", "==", "!=", "<", "=~", "AND", "OR", "!", "(", ")", ",",
 	"int(", "float(", "string(", "strSubstring(", "strIndex(", "count(", "sigma(", "if(", "abs(", "duration(", "pow(", "strLength(", "hour(", "isPresent(", "humanBytes("}
 
-// RunDefine: every short token sequence (and seeded mutations of real scripts) is
-// offered to TaskMaster.NewTask / ast.ParseLambda + stateful evaluation; the outcome
-// must be a task or an error, never a panic, hang or goroutine leak.
-func RunDefine(r *rt.Run) error {
-	if f := os.Getenv("C05_DEBUG"); f != "" {
-		dbg, _ = os.Create(f)
-	}
-	env, err := rt.NewEnv(rt.EnvOpts{})
-	if err != nil {
-		return err
-	}
-	defer env.Close()
-	tr := r.NewTrace("define")
+
+type emitFn func(kind string, length int, first string, t tally, bad []string)
+
+// famTick: every sequence of TICKscript tokens up to the length bound through TaskMaster.NewTask.
+func famTick(r *rt.Run, env *rt.Env, emit emitFn) {
 	maxLen := 3
-	lamLen := 3
 	if r.Thorough() {
-		maxLen, lamLen = 4, 4
-	}
-	g0 := runtime.NumGoroutine()
-	emit := func(kind string, length int, first string, t tally, bad []string) {
-		tr.Reset(nil)
-		sample := []any{}
-		for i, b := range bad {
-			if i < 5 {
-				sample = append(sample, b)
-			}
-		}
-		tr.Event("DefineBatch", rt.M{"kind": kind, "len": length, "first": first, "n": t.n, "tasks": t.tasks, "errors": t.errs,
-			"panics": t.panics, "hangs": t.hangs, "ran": t.ran, "bad": sample})
-		if t.tasks > 0 {
-			tr.Distinct(fmt.Sprintf("%s/%d/%s", kind, length, first))
-		}
+		maxLen = 4
 	}
 	n := 0
 	for length := 1; length <= maxLen; length++ {
@@ -201,6 +179,16 @@ func RunDefine(r *rt.Run) error {
 			emit("tick", length, strings.TrimSpace(first), t, bad)
 		}
 	}
+	r.Extra["token_alphabet"] = len(tokens)
+	r.Extra["max_len"] = maxLen
+}
+
+// famLambda: every sequence of lambda tokens parsed, compiled and evaluated on 5 scopes.
+func famLambda(r *rt.Run, env *rt.Env, emit emitFn) {
+	lamLen := 3
+	if r.Thorough() {
+		lamLen = 4
+	}
 	for length := 1; length <= lamLen; length++ {
 		for fi, first := range lambdaTokens {
 			var t tally
@@ -234,30 +222,129 @@ func RunDefine(r *rt.Run) error {
 			emit("lambda", length, first, t, bad)
 		}
 	}
-	// syntax errors at every distance from trailing multi-byte text (error messages quote a snippet of the
-	// script around the offending token)
-	{
-		var t tally
-		var bad []string
-		k := 0
-		for _, base := range []string{") ", "| ", "var x = ) ", "stream|from(", "stream\n|from()\n.measurement(", "var s = 'a' + + "} {
-			for _, tail := range []string{"é", "→", "😀", "é→😀", "aé", "😀b"} {
-				for pad := 0; pad <= 16; pad++ {
-					for _, sep := range []string{"// ", "'", ""} {
-						k++
-						defineOne(env, fmt.Sprintf("u%d", k), base+sep+strings.Repeat("a", pad)+tail, false, &t, &bad)
-						lambdaOne(base+sep+strings.Repeat("a", pad)+tail, &t, &bad)
-					}
+	r.Extra["lambda_alphabet"] = len(lambdaTokens)
+}
+
+// famUnicode: syntax errors at every distance from trailing multi-byte text (error messages quote a snippet of the
+// script around the offending token)
+func famUnicode(r *rt.Run, env *rt.Env, emit emitFn) {
+	var t tally
+	var bad []string
+	k := 0
+	for _, base := range []string{") ", "| ", "var x = ) ", "stream|from(", "stream\n|from()\n.measurement(", "var s = 'a' + + "} {
+		for _, tail := range []string{"é", "→", "😀", "é→😀", "aé", "😀b"} {
+			for pad := 0; pad <= 16; pad++ {
+				for _, sep := range []string{"// ", "'", ""} {
+					k++
+					defineOne(env, fmt.Sprintf("u%d", k), base+sep+strings.Repeat("a", pad)+tail, false, &t, &bad)
+					lambdaOne(base+sep+strings.Repeat("a", pad)+tail, &t, &bad)
 				}
 			}
 		}
-		emit("unicode-tail", 0, "syntax error before multi-byte text", t, bad)
 	}
+	emit("unicode-tail", 0, "syntax error before multi-byte text", t, bad)
+}
+
+func famMutants(r *rt.Run, env *rt.Env, emit emitFn) {
 	nMut := 3000
 	if r.Thorough() {
 		nMut = 40000
 	}
 	runMutants(r, env, nMut, emit)
+	r.Extra["corpus_mutants"] = nMut
+}
+
+var families = []struct {
+	name string
+	fn   func(r *rt.Run, env *rt.Env, emit emitFn)
+}{
+	{"tick", famTick}, {"lambda", famLambda}, {"unicode", famUnicode}, {"bytes", famBytes}, {"bytesctx", famBytesCtx},
+	{"mutants", famMutants}, {"vars", famVars}, {"pjson", famPJSON},
+}
+
+// ---- the input being processed, visible to the parent after a process-fatal outcome ----
+
+var curMap []byte
+
+func openCur(dir string) {
+	f, err := os.OpenFile(filepath.Join(dir, "cur"), os.O_RDWR|os.O_CREATE|os.O_TRUNC, 0o644)
+	if err != nil {
+		rt.Fatalf("c05define: %v", err)
+	}
+	defer f.Close()
+	if err := f.Truncate(4096); err != nil {
+		rt.Fatalf("c05define: %v", err)
+	}
+	curMap, err = syscall.Mmap(int(f.Fd()), 0, 4096, syscall.PROT_READ|syscall.PROT_WRITE, syscall.MAP_SHARED)
+	if err != nil {
+		rt.Fatalf("c05define: mmap: %v", err)
+	}
+}
+
+// setCur records the input about to be processed in a shared file mapping (survives the death of the process).
+func setCur(s string) {
+	if curMap == nil {
+		return
+	}
+	n := len(s)
+	if n > 4000 {
+		n = 4000
+	}
+	binary.LittleEndian.PutUint32(curMap[0:4], uint32(n))
+	copy(curMap[4:], s[:n])
+}
+
+func readCur(dir string) string {
+	b, err := os.ReadFile(filepath.Join(dir, "cur"))
+	if err != nil || len(b) < 4 {
+		return ""
+	}
+	n := int(binary.LittleEndian.Uint32(b[0:4]))
+	if n > len(b)-4 {
+		n = len(b) - 4
+	}
+	return string(b[4 : 4+n])
+}
+
+// RunDefineFamily (child process): one family of definitions; outcome per definition ∈ {task, error}; a panic that
+// can be recovered, a hang and goroutine growth are recorded; a process-fatal input ends the process (seen by the parent).
+func RunDefineFamily(r *rt.Run) error {
+	if len(r.Args) != 1 {
+		rt.Fatalf("c05definefam: want one family name")
+	}
+	openCur(r.OutDir)
+	env, err := rt.NewEnv(rt.EnvOpts{})
+	if err != nil {
+		return err
+	}
+	defer env.Close()
+	tr := r.NewTrace("define")
+	g0 := runtime.NumGoroutine()
+	emit := func(kind string, length int, first string, t tally, bad []string) {
+		tr.Reset(nil)
+		sample := []any{}
+		for i, b := range bad {
+			if i < 5 {
+				sample = append(sample, b)
+			}
+		}
+		tr.Event("DefineBatch", rt.M{"kind": kind, "len": length, "first": first, "n": t.n, "tasks": t.tasks, "errors": t.errs,
+			"panics": t.panics, "hangs": t.hangs, "ran": t.ran, "bad": sample})
+		if t.tasks > 0 {
+			tr.Distinct(fmt.Sprintf("%s/%d/%s", kind, length, first))
+		}
+		tr.Flush()
+	}
+	found := false
+	for _, f := range families {
+		if f.name == r.Args[0] {
+			f.fn(r, env, emit)
+			found = true
+		}
+	}
+	if !found {
+		rt.Fatalf("c05definefam: unknown family %q", r.Args[0])
+	}
 	// goroutine growth over the whole run (definitions must not leak goroutines)
 	deadline := time.Now().Add(10 * time.Second)
 	g1 := runtime.NumGoroutine()
@@ -265,12 +352,117 @@ func RunDefine(r *rt.Run) error {
 		time.Sleep(10 * time.Millisecond)
 		g1 = runtime.NumGoroutine()
 	}
+	if f := os.Getenv("C05_STACKS"); f != "" && g1 > g0+2 {
+		buf := make([]byte, 1<<24)
+		os.WriteFile(f, buf[:runtime.Stack(buf, true)], 0o644)
+	}
 	tr.Reset(nil)
-	tr.Event("Goroutines", rt.M{"before": g0, "after": g1})
-	r.Extra["token_alphabet"] = len(tokens)
-	r.Extra["lambda_alphabet"] = len(lambdaTokens)
-	r.Extra["max_len"] = maxLen
-	r.Extra["corpus_mutants"] = nMut
-	r.Finish("every sequence of TICKscript tokens up to the length bound offered to TaskMaster.NewTask (accepted stream tasks are started, fed one point and stopped), every sequence of lambda tokens parsed, compiled and evaluated on 5 scopes; batches grouped by (kind, length, first token); non-trivial = a batch in which at least one definition was accepted", true)
+	tr.Event("Goroutines", rt.M{"before": g0, "after": g1, "family": r.Args[0]})
+	r.Finish("one family of definitions", true)
 	return nil
+}
+
+// RunDefine (parent): every family of definitions in its own child process, so that a process-fatal definition is an
+// exit status attributed to an input, not a dead harness.  The children's trace lines are copied into one trace; a
+// child that died contributes a DefineBatch line with panics = 1 naming the input it was processing.
+func RunDefine(r *rt.Run) error {
+	self, err := os.Executable()
+	if err != nil {
+		return err
+	}
+	type res struct {
+		lines []map[string]any
+		extra map[string]any
+		died  string
+	}
+	results := make([]res, len(families))
+	sem := make(chan struct{}, 6)
+	var wg sync.WaitGroup
+	for i, f := range families {
+		i, f := i, f
+		wg.Add(1)
+		go func() {
+			defer wg.Done()
+			sem <- struct{}{}
+			defer func() { <-sem }()
+			dir := filepath.Join(r.OutDir, "fam-"+f.name)
+			os.MkdirAll(dir, 0o755)
+			ctx, cancel := context.WithTimeout(context.Background(), 50*time.Minute)
+			defer cancel()
+			cmd := exec.CommandContext(ctx, self, "c05definefam", "-out", dir, "-tier", r.Tier, "-seed", fmt.Sprint(r.Seed), f.name)
+			outb, err := cmd.CombinedOutput()
+			if ctx.Err() != nil {
+				rt.Fatalf("c05define: family %s did not finish in 50 min:\n%s", f.name, tail(string(outb)))
+			}
+			if exit, ok := err.(*exec.ExitError); ok && exit.ExitCode() == 2 && containsHarnessError(string(outb)) {
+				rt.Fatalf("c05define: harness error in family %s:\n%s", f.name, tail(string(outb)))
+			}
+			var x res
+			if b, rerr := os.ReadFile(filepath.Join(dir, "define.ndjson")); rerr == nil {
+				for _, ln := range strings.Split(string(b), "\n") {
+					if strings.TrimSpace(ln) == "" {
+						continue
+					}
+					var m map[string]any
+					if json.Unmarshal([]byte(ln), &m) == nil {
+						x.lines = append(x.lines, m)
+					}
+				}
+			}
+			if err != nil {
+				// the process died: Go runtime panic / fatal error (exit status 2), signal, os.Exit in library code
+				x.died = fmt.Sprintf("the process died (%v) while processing %q: %s", err, readCur(dir), firstFatalLine(string(outb)))
+			} else if b, rerr := os.ReadFile(filepath.Join(dir, "meta.json")); rerr == nil {
+				var m struct {
+					Extra map[string]any `json:"extra"`
+				}
+				if json.Unmarshal(b, &m) == nil {
+					x.extra = m.Extra
+				}
+			}
+			results[i] = x
+			os.RemoveAll(dir)
+		}()
+	}
+	wg.Wait()
+	tr := r.NewTrace("define")
+	for i, x := range results {
+		for _, m := range x.lines {
+			ev, _ := m["ev"].(string)
+			delete(m, "ev")
+			if ev == "Reset" {
+				tr.Reset(nil)
+				continue
+			}
+			tr.Event(ev, rt.M(m))
+			if ev == "DefineBatch" {
+				if n, _ := m["tasks"].(float64); n > 0 {
+					tr.Distinct(fmt.Sprintf("%v/%v/%v", m["kind"], m["len"], m["first"]))
+				}
+			}
+		}
+		if x.died != "" {
+			tr.Reset(nil)
+			tr.Event("DefineBatch", rt.M{"kind": families[i].name, "len": 0, "first": "process died", "n": 1, "tasks": 0, "errors": 0,
+				"panics": 1, "hangs": 0, "ran": 0, "bad": []any{x.died}})
+		}
+		for k, v := range x.extra {
+			r.Extra[k] = v
+		}
+	}
+	r.Extra["families"] = len(families)
+	r.Finish("every sequence of TICKscript tokens up to the length bound offered to TaskMaster.NewTask (accepted stream tasks are started, fed one point and stopped), every sequence of lambda tokens parsed, compiled and evaluated on 5 scopes, every byte string over the lexer's byte alphabet up to the length bound alone and inside every lexer context, template/vars documents and task documents through the task store's HTTP handlers, mutated pipeline JSON documents, seeded token mutations of real scripts; one child process per family; batches grouped by (kind, length, first token); non-trivial = a batch in which at least one definition was accepted", true)
+	return nil
+}
+
+func firstFatalLine(out string) string {
+	for _, ln := range strings.Split(out, "\n") {
+		if strings.HasPrefix(ln, "panic:") || strings.HasPrefix(ln, "fatal error:") || strings.HasPrefix(ln, "runtime:") || strings.Contains(ln, "signal ") {
+			if len(ln) > 300 {
+				ln = ln[:300]
+			}
+			return ln
+		}
+	}
+	return tail(out)
 }
